@@ -137,6 +137,16 @@ MIOK(c) ==
   /\ VarsOf(c.res) \subseteq names
   /\ \A e \in envs : Eval(c.res, e) = Q(RowMajor(c.sizes, iv(e), n), 1)
 
+\* ufl_to_lnodes simplifies the complex-part operators of a REAL-typed operand (a value without imaginary part):
+\*   conj x = x,  real x = x,  imag x = 0.      [id, kind "cpart", op, a (operand tree), res (tree)]
+\* (for other operands the result is an opaque function node, which is not judged here)
+CPartOps == {"conj", "real", "imag"}
+CPartOK(c) ==
+  LET vars == VarsOf(c.a) \cup VarsOf(c.res)
+      ref(x) == IF c.op = "imag" THEN Q(0, 1) ELSE x IN
+  /\ c.op \in CPartOps
+  /\ \A env \in Envs(vars) : Eval(c.a, env).ok => Eval(c.res, env) = ref(Eval(c.a, env))
+
 VARIABLE ri
 AInit == ri \in 1..Len(Results)
 ANext == UNCHANGED ri
@@ -144,6 +154,7 @@ ASpec == AInit /\ [][ANext]_ri
 
 Judge ==
   LET c == Results[ri] IN
-  (CASE c.kind = "op" -> OpOK(c) [] c.kind = "product" -> ProductOK(c) [] c.kind = "mi" -> MIOK(c) [] OTHER -> FALSE)
+  (CASE c.kind = "op" -> OpOK(c) [] c.kind = "product" -> ProductOK(c) [] c.kind = "mi" -> MIOK(c)
+     [] c.kind = "cpart" -> CPartOK(c) [] OTHER -> FALSE)
   \/ PrintT(<<"VIOL", c.id, c.kind>>)
 =============================================================================
